@@ -8,7 +8,7 @@ Record fline := mkfline { fl_status : N; fl_methodno : N; fl_method : pf; fl_uri
 #[export] Instance eta_fline : Settable _ :=
   settable! mkfline <fl_status; fl_methodno; fl_method; fl_uri; fl_version; fl_statuscode; fl_reason; fl_state>.
 Definition fline0 : fline := mkfline 0 0 pf0 pf0 pf0 pf0 pf0 FlInit.
-Definition fl_request (s : fline) : bool := fl_status s =? 0.
+Definition fl_request (s : fline) : bool := (fl_status s =? 0) && pf_empty (fl_statuscode s).
 Definition fl_parsed (s : fline) : bool := match fl_state s with FlFIN => true | _ => false end.
 Definition fl_empty (s : fline) : bool := match fl_state s with FlInit => true | _ => false end.
 
